@@ -662,26 +662,17 @@ int32 dtlsChkReplayWindow(ssl_t *ssl, unsigned char *seq64)
     lastSeq = ((uint32_t) ls64[2] << 24) + ((uint32_t) ls64[3] << 16) +
               ((uint32_t) ls64[4] << 8) + (uint32_t) ls64[5];
 
-    if (seq == 0)
+    /* The window state (lastRsn, dtlsBitmap) belongs to one epoch. The first
+       record accepted under a newer epoch starts a fresh window; a record of
+       the window's own epoch - including sequence number 0, e.g. a replayed
+       Finished - is judged against the window like any other. */
+    if (dtlsCompareEpoch(ssl->rec.epoch, ssl->dtlsWinEpoch) > 0)
     {
-        /* Need to differentiate between initial, duplicate, and epoch shift */
-        if (lastSeq == 0 && ssl->rec.epoch[0] == 0 && ssl->rec.epoch[1] == 0)
-        {
-            ssl->dtlsBitmap = 0;
-            return 1; /* initial one */
-        }
-        if (dtlsCompareEpoch(ssl->rec.epoch, ssl->expectedEpoch) >= 0 &&
-            lastSeq > 0)
-        {
-            ssl->dtlsBitmap = 0;
-            return 1; /* epoch shift */
-        }
-        if (lastSeq == 0xFFFFFFF)
-        {
-            ssl->dtlsBitmap = 0;
-            return 1; /* wrapped */
-        }
-        return 0;     /* duplicate */
+        ssl->dtlsWinEpoch[0] = ssl->rec.epoch[0];
+        ssl->dtlsWinEpoch[1] = ssl->rec.epoch[1];
+        Memset(ssl->lastRsn, 0x0, sizeof(ssl->lastRsn));
+        ssl->dtlsBitmap = 0;
+        lastSeq = 0;
     }
 
     if (seq > lastSeq)                 /* new larger sequence number */
